@@ -409,7 +409,7 @@ class World:
 
 # ---- generation -----------------------------------------------------------------------------------
 
-REGEX_POOL = [".*", "x", "q", "[a-z]+", "1", "[0-9]+$", "", "L+A$", "^q", ".", "None", "\\(", "é"]
+REGEX_POOL = [".*", "x", "q", "[a-z]+", "1", "[0-9]+$", "", "L+A$", "^q", ".", "None", "\\(", "é", "a b", "a  b", "a\tb", ".* x", ".*  x", "q .*"]
 
 
 class Gen:
@@ -614,7 +614,7 @@ def make_config(rseed: int, prop: str, tier: str, faults: bool) -> dict[str, Any
             "leaf_classes": ["LeafA", "LeafB", "LeafA2", "Meta"] + r.sample(["Vals", "Lit", "Upper"], r.choice([0, 1, 2])),
             "inner_classes": r.sample(["Pair", "Seq", "Mixed", "Fixed", "Falsy"], r.choice([2, 3, 5])),
             "origins": r.sample(U.ORIGIN_KEYS, r.choice([2, 3])),
-            "pools": {"str": r.sample([s for s in U.STR_POOL if "\n" not in s], r.choice([2, 3, 5])), "bool": [True, False]},
+            "pools": {"str": r.sample([s for s in U.STR_POOL if "\n" not in s] + ["a b", "a  b", "a\tb", "q  x"], r.choice([2, 3, 5])), "bool": [True, False]},
             "actors": ["m0"],
             "rtc": False,
         },
